@@ -137,6 +137,88 @@ def callSeq (fixed : Bool) : List Nat → List (List Outcome) → List CallResul
     let (r, dead') := call fixed dead os
     r :: callSeq fixed dead' rest
 
+/-! ### configuration: gas settings, chain id, and what a reconnect does with them
+
+The adaptor keeps the gas settings twice: in its own fields (`e.gasLimit`, `e.gasPrice`, set by
+`NewEthAdaptor` and by `SetGasLimit` / `SetGasPrice`) and in the `TransactOpts` of every live session (set by
+`Connect` FROM the fields — `auth.GasLimit = e.gasLimit; if e.gasPrice != 0 { auth.GasPrice = e.gasPrice }` —
+and by the two setters).  Transactions are signed with the session copy; `Connect` (after `DisconnectAll`,
+or at start) rebuilds every session from the fields, the chain id and the key.  Gas price 0 = no fixed price:
+the endpoint's suggestion is used for every transaction. -/
+
+structure Config where
+  gasLimit : Nat
+  gasPrice : Nat     -- 0: endpoint-suggested
+  chainId : Nat
+  deriving DecidableEq, Repr
+
+structure Adaptor where
+  field : Config          -- e.gasLimit, e.gasPrice, e.chainID
+  session : Config        -- TransactOpts of the live sessions (and the signer's chain id)
+  dead : List Nat         -- endpoints cancelled since the last Connect
+  deriving DecidableEq, Repr
+
+/-- `Uint64()` of the setter arguments -/
+def u64 (v : Nat) : Nat := v % 2 ^ 64
+
+/-- `NewEthAdaptor` + `Connect` -/
+def Adaptor.start (c : Config) : Adaptor := { field := c, session := c, dead := [] }
+
+/-- `SetGasPrice(v)`: `e.gasPrice = v.Uint64()`; every session: `GasPrice = nil` if `v = 0`, else `v` -/
+def Adaptor.setGasPrice (a : Adaptor) (v : Nat) : Adaptor :=
+  { a with field := { a.field with gasPrice := u64 v }, session := { a.session with gasPrice := v } }
+
+/-- `SetGasLimit(v)`: `e.gasLimit = v.Uint64()`; every session: `GasLimit = v.Uint64()` -/
+def Adaptor.setGasLimit (a : Adaptor) (v : Nat) : Adaptor :=
+  { a with field := { a.field with gasLimit := u64 v }, session := { a.session with gasLimit := u64 v } }
+
+/-- `DisconnectAll` + `Connect`: fresh endpoint contexts, every session rebuilt from the fields -/
+def Adaptor.reconnect (a : Adaptor) : Adaptor := { a with session := a.field, dead := [] }
+
+inductive Op where
+  | setGasPrice (v : Nat)
+  | setGasLimit (v : Nat)
+  | reconnect
+  | send (os : List Outcome)      -- one state-changing call; the endpoints behave as `os`
+  deriving Repr
+
+/-- what one sent transaction carries -/
+structure TxCfg where
+  endpoint : Nat
+  gas : Nat
+  price : Nat          -- 0: the endpoint's suggestion was used
+  chainId : Nat
+  deriving DecidableEq, Repr
+
+/-- run a history; for every `send`: the call's result and the settings of the transaction signed for every
+contacted endpoint -/
+def Adaptor.exec (fixed : Bool) : Adaptor → List Op → List (CallResult × List TxCfg)
+  | _, [] => []
+  | a, .setGasPrice v :: ops => (a.setGasPrice v).exec fixed ops
+  | a, .setGasLimit v :: ops => (a.setGasLimit v).exec fixed ops
+  | a, .reconnect :: ops => a.reconnect.exec fixed ops
+  | a, .send os :: ops =>
+    let (r, dead') := call fixed a.dead os
+    let txs := r.contacted.map (fun i =>
+      { endpoint := i, gas := a.session.gasLimit, price := a.session.gasPrice, chainId := a.session.chainId : TxCfg })
+    (r, txs) :: ({ a with dead := dead' } : Adaptor).exec fixed ops
+
+/-- the adaptor after a history -/
+def Adaptor.after (fixed : Bool) : Adaptor → List Op → Adaptor
+  | a, [] => a
+  | a, .setGasPrice v :: ops => (a.setGasPrice v).after fixed ops
+  | a, .setGasLimit v :: ops => (a.setGasLimit v).after fixed ops
+  | a, .reconnect :: ops => a.reconnect.after fixed ops
+  | a, .send os :: ops => ({ a with dead := (call fixed a.dead os).2 } : Adaptor).after fixed ops
+
+/-- the configuration the operator has set: the initial one with the setters applied in order (reconnects and
+calls do not change it) -/
+def intended : Config → List Op → Config
+  | c, [] => c
+  | c, .setGasPrice v :: ops => intended { c with gasPrice := v } ops
+  | c, .setGasLimit v :: ops => intended { c with gasLimit := u64 v } ops
+  | c, _ :: ops => intended c ops
+
 /-! ### argument marshalling -/
 
 /-- `Signature.ToBigInt`: `if len(sig) < 32 { return 0, 0 }; x.SetBytes(sig[0:32]); y.SetBytes(sig[32:])`
